@@ -369,3 +369,108 @@ Proof.
   - exfalso. apply (Hw a'). apply (ki_w _ _ (inv_k _ HI k)). eauto.
   - cbn [new_guard]. rewrite (vof_get s k e He). eauto.
 Qed.
+
+(* ------------------------------------------------------------------ *)
+(* consequences at the level of the abstract machine: a key is re-acquired only after its guard was released *)
+
+Lemma spec_acts_cons sp cl rest sp' os :
+  spec_acts sp (cl :: rest) = Some (sp', os) ->
+  exists sp1 o os', spec_call sp cl = Some (sp1, Some o) /\ spec_acts sp1 rest = Some (sp', os') /\ os = o :: os'.
+Proof.
+  cbn. destruct (spec_call sp cl) as [[sp1 [o|]]|]; try discriminate.
+  destruct (spec_acts sp1 rest) as [[sp2 os']|] eqn:E; [|discriminate]. intros H; inv H. eauto 8.
+Qed.
+
+Lemma spec_acts_split sp c1 : forall c2 sp' os,
+  spec_acts sp (c1 ++ c2) = Some (sp', os) ->
+  exists sp1 o1 o2, spec_acts sp c1 = Some (sp1, o1) /\ spec_acts sp1 c2 = Some (sp', o2) /\ os = o1 ++ o2.
+Proof.
+  revert sp. induction c1 as [|cl rest IH]; intros sp c2 sp' os H.
+  - exists sp, [], os. cbn. auto.
+  - cbn [app] in H. destruct (spec_acts_cons _ _ _ _ _ H) as (sp1 & o & os' & E1 & E2 & ->).
+    destruct (IH sp1 c2 sp' os' E2) as (sp2 & o1 & o2 & F1 & F2 & ->).
+    exists sp2, (o :: o1), o2. cbn. rewrite E1, F1. auto.
+Qed.
+
+(* a guard stays in the locked set as long as it is not dropped *)
+Lemma guard_stays sp calls : forall sp' os g k,
+  spec_acts sp calls = Some (sp', os) -> In (g, k) (sp_guards sp) -> ~ In (SDrop g) calls -> In (g, k) (sp_guards sp').
+Proof.
+  revert sp. induction calls as [|cl rest IH]; intros sp sp' os g k H Hin Hnd.
+  - cbn in H. inv H. exact Hin.
+  - destruct (spec_acts_cons _ _ _ _ _ H) as (sp1 & o & os' & E1 & E2 & ->).
+    apply (IH sp1 sp' os' g k E2).
+    + destruct cl as [sh k0|g0 op|g0| |]; cbn in E1.
+      * destruct (sp_locked sp k0); [destruct (sh_is_try sh); inv E1; exact Hin|]. inv E1. cbn. right. exact Hin.
+      * destruct (aget g0 (sp_guards sp)) as [k1|]; [|discriminate]. destruct (spec_gop op (sp_val sp k1)). inv E1. exact Hin.
+      * destruct (aget g0 (sp_guards sp)) as [k1|]; [|discriminate]. inv E1. cbn.
+        apply In_adel. split; [exact Hin|]. intros ->. apply Hnd. left. reflexivity.
+      * discriminate.
+      * discriminate.
+    + intros Hd. apply Hnd. right. exact Hd.
+Qed.
+
+Lemma in_locked sp g k : In (g, k) (sp_guards sp) -> sp_locked sp k = true.
+Proof.
+  intros H. unfold sp_locked. apply existsb_exists. exists (g, k). split; auto. cbn. apply Nat.eqb_refl.
+Qed.
+
+(* in every history of the abstract machine -- hence, by [conc_history_linearisable], in every interleaving of the
+   model -- a key that was acquired is acquired again only after the first guard has been released in between *)
+Theorem reacquisition_needs_release sp sh k mid sh' sp' g v os_mid g' v' :
+  spec_acts sp (SLock sh k :: mid ++ [SLock sh' k]) = Some (sp', OGuard g k v :: os_mid ++ [OGuard g' k v']) ->
+  In (SDrop g) mid.
+Proof.
+  intros H.
+  destruct (spec_acts_cons _ _ _ _ _ H) as (sp1 & o & os' & E1 & E2 & Eo). inv Eo.
+  destruct (spec_acts_split _ _ _ _ _ E2) as (sp2 & o1 & o2 & F1 & F2 & Eo).
+  assert (Hg : In (g, k) (sp_guards sp1)).
+  { cbn in E1. destruct (sp_locked sp k); [destruct (sh_is_try sh); inv E1|]. inv E1. cbn. left. reflexivity. }
+  set (is_drop := fun c : scall => match c with SDrop g0 => Nat.eqb g0 g | _ => false end).
+  destruct (existsb is_drop mid) eqn:Ex.
+  { apply existsb_exists in Ex as [c [Hc Hd]]. destruct c; cbn in Hd; try discriminate.
+    apply Nat.eqb_eq in Hd. subst. exact Hc. }
+  assert (Hnin : ~ In (SDrop g) mid).
+  { intros Hin. assert (existsb is_drop mid = true) as Ht; [|congruence].
+    apply existsb_exists. exists (SDrop g). split; auto. cbn. apply Nat.eqb_refl. }
+  exfalso.
+  pose proof (guard_stays sp1 mid sp2 o1 g k F1 Hg Hnin) as Hs.
+  apply in_locked in Hs.
+  cbn in F2. rewrite Hs in F2. destruct (sh_is_try sh'); [|discriminate]. inv F2.
+  apply app_inj_tail in Eo. destruct Eo as [_ Eo]. discriminate.
+Qed.
+
+(* ... and while a key is not locked, nothing changes its value: whatever the other calls are *)
+Lemma not_locked_aget sp k g : sp_locked sp k = false -> aget g (sp_guards sp) <> Some k.
+Proof.
+  intros Hl Hg. apply aget_In in Hg. apply in_locked in Hg. congruence.
+Qed.
+
+Theorem value_untouched_while_unlocked sp calls : forall sp' os k,
+  spec_acts sp calls = Some (sp', os) -> sp_locked sp k = false -> (forall sh, ~ In (SLock sh k) calls) ->
+  sp_val sp' k = sp_val sp k /\ sp_locked sp' k = false.
+Proof.
+  revert sp. induction calls as [|cl rest IH]; intros sp sp' os k H Hl Hn.
+  - cbn in H. inv H. auto.
+  - destruct (spec_acts_cons _ _ _ _ _ H) as (sp1 & o & os' & E1 & E2 & ->).
+    assert (S1 : sp_val sp1 k = sp_val sp k /\ sp_locked sp1 k = false).
+    { destruct cl as [sh k0|g0 op|g0| |]; cbn in E1.
+      - destruct (sp_locked sp k0) eqn:L0; [destruct (sh_is_try sh); inv E1; auto|]. inv E1. cbn. split; auto.
+        change (Nat.eqb k0 k || sp_locked sp k = false)%bool. rewrite Hl.
+        destruct (Nat.eqb_spec k0 k); [|reflexivity].
+        subst. exfalso. apply (Hn sh). left. reflexivity.
+      - destruct (aget g0 (sp_guards sp)) as [k1|] eqn:Eg; [|discriminate].
+        destruct (spec_gop op (sp_val sp k1)) as [v' o']. inv E1. cbn. split; [|exact Hl].
+        unfold upd. destruct (Nat.eqb_spec k k1); [|reflexivity]. subst. exfalso. eapply not_locked_aget; eauto.
+      - destruct (aget g0 (sp_guards sp)) as [k1|] eqn:Eg; [|discriminate]. inv E1. cbn. split; auto.
+        match goal with |- ?X = false => destruct X eqn:Ex; [|reflexivity] end. exfalso.
+        unfold sp_locked in Ex. cbn [sp_guards] in Ex.
+        apply existsb_exists in Ex as [[g1 k2] [Hin Hk]]. cbn in Hk. apply Nat.eqb_eq in Hk. subst.
+        apply In_adel in Hin as [Hin _]. apply in_locked in Hin. congruence.
+      - discriminate.
+      - discriminate. }
+    destruct S1 as [V1 L1].
+    destruct (IH sp1 sp' os' k E2 L1) as [V2 L2].
+    { intros sh Hin. apply (Hn sh). right. exact Hin. }
+    split; [congruence|exact L2].
+Qed.
